@@ -171,6 +171,14 @@ impl Lowerer<'_> {
         let default_branches: Vec<_> =
             branches.iter().filter(|(d, _, _)| d.is_none()).collect();
 
+        // If every variant has an arm of its own, the default case cannot be
+        // reached, so we should not generate (a jump to) it.
+        let default_branches = if all_discriminants.len() < variants.len() {
+            default_branches
+        } else {
+            Vec::new()
+        };
+
         let examinee = self.expr(expr);
         let examinee = self.assign_to_var(examinee, examinee_ty_ref);
         let discriminant = self.undropped_tmp();
